@@ -19,16 +19,16 @@ P = {
  "C08": ("exploration", "Per replica and checkpoint: listing stability (subsequence), writer-seen order, and complete enumeration of window queries (bound kind x every entry x 9 amounts) against an independently written iterator contract; histories sampled, windows enumerated per state.", "10 C08", "bounds are log entries; two bounds at once exercised but not judged", T_MON + " (window contract model, subsequence monitor)"),
  "C09": ("exploration", "Instances with 2-4 databases on the default shared bus: while one database is active every other keeps entries, view and replication status, receives no store event, and every wire message / event carries only the owning database's entries. Sampled scripts.", "10 C09", "simulated network; harness subscribes to the shared bus as a user would", T_MON + " (wire-log and event-bus monitors, idle-database invariance)"),
  "C10": ("fault_enumeration", "Enumerated: valid-head count x bad kind x position x placement x receiver state, with remote fetch completions shuffled by a gate; after an honest re-announcement and rest the receiver must hold the closure of the valid heads. Negative verdicts only at confirmed rest.", "10 C10", "whether a bad entry got in is judged by C03/C04, not here", T_MON + " (fault enumeration of announcement mixes with held/reordered block fetches)"),
- "C11": ("fault_enumeration", "Every single cancellation point (hook points, mid-fetch, deadline, injected fetch error) x ordinal is enumerated on short and long logs, pairs/triples sampled; a final uncancelled Sync must deliver the full closure at rest.", "10 C11", "cancellation granularity = hook points + block fetch; final request's blocks fetchable", T_MON + " (cancellation injected at verifhook schedule points and in the block-fetch gate)"),
- "C12": ("exploration", "Thousands of generated byte strings per run on three paths (topic, direct payload, raw libp2p stream frames to the real handler); each child process logs the input before sending; survival, later valid message handled, and unchanged state are checked. Sampled inputs from structured generators.", "10 C12", "unknown CIDs fail like a timed-out fetch; structured generators approximate 'every byte string'", "hostile-input fuzzing under runtime monitors (crash attribution per child process, state and liveness oracles); -race/checkptr build in the thorough tier"),
+ "C11": ("fault_enumeration", "Every single cancellation point (hook points, mid-fetch, deadline, injected fetch error) x ordinal is enumerated on short and long logs, pairs/triples sampled; a final uncancelled Sync must deliver the full closure at rest. Load requests: Store.Load(-1) aborted at the k-th entry read (cancel, read error, persistent block error, deadline) 1-3 times, then a final uncancelled Load(-1) must show every persisted entry.", "10 C11", "cancellation granularity = hook points + block fetch; final request's blocks fetchable", T_MON + " (cancellation injected at verifhook schedule points and in the block-fetch gate)"),
+ "C12": ("exploration", "Thousands of generated byte strings per run on three paths (topic, direct payload, raw libp2p stream frames to the real handler); each child process logs the input before sending; survival, later valid message handled (also when refused variants naming its head arrive first, and with 20-50 truncated frames on streams kept open), and unchanged state are checked. Sampled inputs from structured generators.", "10 C12", "unknown CIDs fail like a timed-out fetch; structured generators approximate 'every byte string'", "hostile-input fuzzing under runtime monitors (crash attribution per child process, state and liveness oracles); -race/checkptr build in the thorough tier"),
  "C13": ("exploration", "Log shapes x payload sizes (0..300 KiB around the 64 KiB boundary) x store types with real UnixFS chunking: SaveSnapshot either errors or a fresh instance reconstructs the same entries, heads and view from it; no panic. Sampled shapes, enumerated size classes.", "10 C13", "snapshot reloaded on the same node (blocks local)", T_MON + " (round-trip oracle)"),
- "C14": ("exploration", "Hundreds of (name, type, write list) tuples incl. hostile names: same inputs => same address on 3 peers, different inputs => different addresses (collision map), print/parse round trip, open on another peer yields recorded type and write list, overwrite/local-only rules. Sampled inputs from a structured generator.", "10 C14", "address computation through the public DetermineAddress/Create/Open API", T_MON + " (determinism / injectivity / round-trip oracles over generated inputs)"),
- "C15": ("fault_enumeration", "Persisted logs (1-3 heads, local+replicated branches) x every limit in {-5,-1,0,1,2,branch±1,total-1,total,total+1,total+50} per call and via MaxHistory: count, subsequence, newest-included, single-writer exactness, no panic.", "10 C15", "limits enumerated per log, logs sampled", T_MON + " (limit enumeration with listing oracle; crash attribution)"),
- "C16": ("exploration", "Each write <-> exactly one EventWrite, merged entries appear in EventReplicated, at receipt the store already reflects the entries, and bus + legacy subscribers see write events in order without loss/duplication under stalling pacing and a schedule-point handler that forces the legacy emitter's two goroutines to interleave. Sampled.", "10 C16", "unique entry hashes identify events", T_MON + " (event-order/exactly-once monitor, schedule point legacy.after-dequeue)"),
- "C17": ("exploration", "2-8 goroutines write concurrently with targeted orderings at write.after-append / write.after-persist; all acknowledged hashes distinct, visible, and still present after close/reopen/Load. Sampled interleavings, distinct arrival orders counted.", "10 C17", "on-disk directory; clean close", T_MON + " (schedule points + recovery oracle); -race in thorough"),
- "C18": ("exploration", "Close of a store / instance at idle and at schedule points during writes, replication and loads; post-close operations must return, repeated Close is nil, no goroutine created by go-orbit-db remains, directory reopens with acknowledged data, Drop removes only its database.", "10 C18", "goroutine attribution by creation site; harness subscriptions cancelled first", T_MON + " (goroutine-leak and hang monitors, reopen oracle)"),
- "C19": ("exploration", "Every SetProgress/SetMax transition observed through hooks (old->new) must not decrease; at rest with a complete log progress==max in [maxClock,len]. Sampled histories.", "10 C19", "one database per instance", T_MON + " (transition monitor on replication-info hooks + rest oracle)"),
- "C20": ("exploration", "Scripted membership snapshots -> join/leave events equal successive set differences; own messages never delivered, foreign exactly once and intact; pairwise channel name symmetric; direct-channel frames 0..limit+ over real in-memory libp2p hosts delivered exactly once, oversize refused without disturbing later traffic. Sampled scripts/payloads.", "10 C20", "scripted coreiface.PubSubAPI and mocknet hosts stand in for the network", "runtime monitoring of the real adapters against scripted transports (exactly-once / attribution monitors with unique payload ids)"),
+ "C14": ("exploration", "Hundreds of (name, type, write list) tuples incl. hostile names: same inputs => same address on 3 peers, different inputs => different addresses (collision map), print/parse round trip, open on another peer yields recorded type and write list, overwrite/local-only rules, one parameters value reused across databases, Open with a missing block. Sampled inputs from a structured generator.", "10 C14", "address computation through the public DetermineAddress/Create/Open API", T_MON + " (determinism / injectivity / round-trip oracles over generated inputs)"),
+ "C15": ("fault_enumeration", "Persisted logs (1-3 heads, local+replicated branches) x every limit in {-5,-1,0,1,2,branch±1,total-1,total,total+1,total+50} per call and via MaxHistory: count, subsequence, newest-included, single-writer exactness, no panic; the same handle loaded again with the same limit after newer entries were persisted.", "10 C15", "limits enumerated per log, logs sampled", T_MON + " (limit enumeration with listing oracle; crash attribution)"),
+ "C16": ("exploration", "Each write <-> exactly one EventWrite, merged entries appear in EventReplicated, at receipt the store already reflects the entries, and bus + legacy subscribers see write events in order without loss/duplication under stalling pacing (including a subscriber that falls hundreds of events behind twice), schedule-point handlers that interleave the legacy emitter's two goroutines or hold index rebuilds, and batches containing an entry the merge refuses. Sampled.", "10 C16", "unique entry hashes identify events", T_MON + " (event-order/exactly-once monitor, schedule point legacy.after-dequeue)"),
+ "C17": ("exploration", "2-8 goroutines write concurrently with targeted orderings at write.after-append / write.after-persist; all acknowledged hashes distinct, visible, and still present after close/reopen/Load; batched writes and slow head writes injected at the cache datastore, the schedule ending where an older head lands after a newer one. Sampled interleavings, distinct arrival orders counted.", "10 C17", "on-disk directory; clean close", T_MON + " (schedule points + recovery oracle); -race in thorough"),
+ "C18": ("exploration", "Close of a store / instance at idle and at schedule points during writes, replication and loads; post-close operations must return, repeated Close is nil, no goroutine created by go-orbit-db remains, directory reopens with acknowledged data, Drop removes only its database; also with the instance's creation context cancelled first, a datastore failing on Close, and legacy subscriptions cancelled while their dequeuer is about to sleep.", "10 C18", "goroutine attribution by creation site; harness subscriptions cancelled first", T_MON + " (goroutine-leak and hang monitors, reopen oracle)"),
+ "C19": ("exploration", "Every SetProgress/SetMax transition observed through hooks (old->new) must not decrease; at rest with a complete log progress==max in [maxClock,len]. Sampled histories of writes, replications, loads, snapshot loads (into the live store and snapshot-only after a restart), injected head-write failures and local writes in the middle of a replication.", "10 C19", "one database per instance", T_MON + " (transition monitor on replication-info hooks + rest oracle)"),
+ "C20": ("exploration", "Scripted membership snapshots -> join/leave events equal successive set differences; own messages never delivered, foreign exactly once and intact; pairwise channel name symmetric; direct-channel frames 0..limit+ over real in-memory libp2p hosts delivered exactly once (also over streams that deliver writes in pieces), oversize refused without disturbing later traffic; oneonone reconnect after the connecting store's context ended and sends issued as soon as Connect returns. Sampled scripts/payloads.", "10 C20", "scripted coreiface.PubSubAPI and mocknet hosts stand in for the network", "runtime monitoring of the real adapters against scripted transports (exactly-once / attribution monitors with unique payload ids)"),
 }
 
 checks = []
